@@ -1,7 +1,7 @@
 #!/bin/sh
 # Runs the repository's pinned test suite with the `verif` guard OFF and compares with BASELINE.json.
 export GOFLAGS=-mod=mod GOPROXY=off
-cd /repo && go test -mod=mod -json -vet=off -count=1 -timeout 25m ./... > /tmp/verif_baseline_off.json 2>/tmp/verif_baseline_off.err
+cd ${VERIF_REPO:-/repo} && go test -mod=mod -json -vet=off -count=1 -timeout 25m ./... > /tmp/verif_baseline_off.json 2>/tmp/verif_baseline_off.err
 python3 - <<'PY'
 import json,sys
 passed=set()
